@@ -686,6 +686,37 @@ fn for_increment(id: &mut usize, out: &mut Vec<Obs>) {
     }
 }
 
+/// Results of built-in functions that do not fit the target: the value of a numeral beyond the SINGLE / DOUBLE range (VAL),
+/// a length or position beyond the INTEGER range (LEN, INSTR of strings longer than 32767 characters). The target either
+/// receives a value of its type or Overflow is raised; a result beyond the function's own INTEGER type may also be refused
+/// whatever the target is.
+fn builtin_results(id: &mut usize, out: &mut Vec<Obs>) {
+    let cases: Vec<(&'static str, String, f64)> = vec![
+        ("builtin:val-beyond-double", "VAL(STRING$(400, \"9\"))".to_string(), f64::INFINITY),
+        ("builtin:len-beyond-integer", "LEN(SPACE$(20000) + SPACE$(20000))".to_string(), 40000.0),
+        ("builtin:instr-beyond-integer", "INSTR(SPACE$(20000) + SPACE$(20000) + \"x\", \"x\")".to_string(), 40001.0),
+        ("builtin:len-inside-integer", "LEN(SPACE$(20000) + SPACE$(12767))".to_string(), 32767.0),
+    ];
+    for (route, expr, value) in cases {
+        for t in T::ALL {
+            let fits = match t {
+                T::I => value.abs() <= 32767.0,
+                T::L => value.abs() <= 2147483647.0,
+                T::S => value.is_finite() && (value as f32).is_finite(),
+                T::D => value.is_finite(),
+            };
+            let mut exp = if fits { vec![Out::Stored(if t == T::S { (value as f32) as f64 } else { value })] } else { vec![Out::Overflow] };
+            if route.ends_with("beyond-integer") && fits {
+                exp.push(Out::Overflow);
+            }
+            let tv = format!("TV{}", t.sfx());
+            *id += 1;
+            let k = *id;
+            out.push(Obs { id: k, route, s: T::D, t, v: w(0), lines: vec![format!("{} = 7", tv), format!("{} = {}", tv, expr)], show: Some(format!("PRINT \"K{}\"; {}", k, tv)), stdin: None, data: None, exp, arith: false });
+        }
+    }
+}
+
 fn matrix() -> Vec<Obs> {
     let mut id = 0usize;
     let mut out = vec![];
@@ -701,6 +732,7 @@ fn matrix() -> Vec<Obs> {
     huge_text(&mut id, &mut out);
     poke(&mut id, &mut out);
     for_increment(&mut id, &mut out);
+    builtin_results(&mut id, &mut out);
     out
 }
 
